@@ -474,7 +474,33 @@ func (e *Engine) collectMods(fn *ssa.Function, set map[string]bool) {
 		}
 		con := e.contracts.Fns[key]
 		if con != nil && (con.Trusted || con.NoBody || len(con.Modifies) > 0 || con.Pure) {
+			_, _, sig := calleeKey(c)
+			names := formalNames(con, sig, c.IsInvoke())
 			for _, m := range con.Modifies {
+				if strings.HasPrefix(m, "*") || strings.HasPrefix(m, "[]") {
+					pn := strings.TrimPrefix(strings.TrimPrefix(m, "*"), "[]")
+					for i, n := range names {
+						off := 0
+						if c.IsInvoke() {
+							off = 1
+						}
+						if n == pn && i-off >= 0 && i-off < len(c.Args) {
+							a := c.Args[i-off]
+							if !freshBase(a) {
+								root := a
+								for {
+									if fa, ok := root.(*ssa.FieldAddr); ok {
+										root = fa.X
+										continue
+									}
+									break
+								}
+								addPtr(root.Type())
+							}
+						}
+					}
+					continue
+				}
 				set[m] = true
 			}
 			return
